@@ -450,7 +450,7 @@ theorem closed_ArenaP (o0 : Outbound) : Closed (ArenaP o0) where
     apply h.step
     rw [Session.encode_fst]; exact OStep.encodeAt _ _ he
   enqueue := by
-    intro ε s enc off len isPub s3 he h _ hres hr
+    intro ε s enc off len isPub s3 _ he _ _ h _ hres hr
     apply h.step
     rw [Session.encode_fst, Session.alloc_fst, Session.alloc_snd] at hr
     rw [Session.encode_snd, Session.alloc_fst] at hres
